@@ -74,6 +74,9 @@ type C17Case struct {
 	Tail []string `json:"tail,omitempty"`
 	// CloseErrno: what closing the socket itself returns (EINTR: the descriptor is gone all the same)
 	CloseErrno int `json:"close_errno,omitempty"`
+	// StartBelowWrap: the socket's sequence counter starts this far below 2^32 (0 = at 100): requests get the numbers
+	// up to 4294967295, then 0, 1, ... — a request numbered 0 is a request like any other
+	StartBelowWrap uint32 `json:"start_below_wrap,omitempty"`
 }
 
 func (c C17Case) Describe() string {
@@ -81,7 +84,7 @@ func (c C17Case) Describe() string {
 	for i, o := range c.Ops {
 		fmt.Fprintf(&b, " %d %s(%s) u32=%d ack-errno=%d rules=%x noise=%d eintr=%d hard=%d answer-type=%d send-refused=%d\n", i, o.K, c17Setters[o.Setter%len(c17Setters)], o.U32, o.Errno, o.Rules, o.Noise, o.Eintr, o.Hard, o.BadType, o.SendFail)
 	}
-	fmt.Fprintf(&b, " (closing the socket returns errno %d)", c.CloseErrno)
+	fmt.Fprintf(&b, " (sequence counter starts %d below 2^32; closing the socket returns errno %d)", c.StartBelowWrap, c.CloseErrno)
 	fmt.Fprintf(&b, " then Close x %d (sends during Close fail with errno %d), then WaitForPendingACKs x %d (reads on the closed socket fail: %v), then %v\n", c.Closes, c.CloseSendErrno, c.AfterClose, c.ClosedReads, c.Tail)
 	return b.String()
 }
@@ -101,7 +104,7 @@ func genC17(t *rapid.T) C17Case {
 		if rapid.IntRange(0, 3).Draw(t, "fail") == 0 {
 			o.Errno = rapid.SampledFrom([]int{int(syscall.EPERM), int(syscall.EINVAL), int(syscall.EBUSY), int(syscall.ENOMEM)}).Draw(t, "errno")
 		}
-		o.Noise = rapid.SampledFrom([]int{0, 0, 0, 1, 2, 10, 9, 11, 25}).Draw(t, "noise")
+		o.Noise = rapid.SampledFrom([]int{0, 0, 0, 1, 2, 10, 9, 11, 25, 65, 64, 129}).Draw(t, "noise")
 		o.Eintr = rapid.SampledFrom([]int{0, 0, 0, 1, 3, 9}).Draw(t, "eintr")
 		if o.K == "nowait" && rapid.IntRange(0, 9).Draw(t, "sendfail") == 0 {
 			o.SendFail = rapid.SampledFrom([]int{int(syscall.ENOBUFS), int(syscall.EPERM), int(syscall.ECONNREFUSED), int(syscall.EAGAIN)}).Draw(t, "sendfailerrno")
@@ -116,6 +119,9 @@ func genC17(t *rapid.T) C17Case {
 			}
 		}
 		c.Ops = append(c.Ops, o)
+	}
+	if rapid.IntRange(0, 3).Draw(t, "wrap") == 0 {
+		c.StartBelowWrap = rapid.Uint32Range(1, uint32(len(c.Ops))+2).Draw(t, "startbelowwrap")
 	}
 	c.Closes = rapid.SampledFrom([]int{0, 1, 1, 2, 3, 4}).Draw(t, "closes")
 	if rapid.IntRange(0, 4).Draw(t, "closesendfails") == 0 {
@@ -143,6 +149,11 @@ type pend struct {
 
 func propC17(c C17Case) error {
 	k := simk.New(100)
+	if c.StartBelowWrap > 0 {
+		k = simk.New(-c.StartBelowWrap)
+		k.AllowZeroSeq = true
+		hC17.Class("history-with-sequence-counter-started-just-below-2^32")
+	}
 	k.KeepQueue = true
 	cl := &libaudit.AuditClient{Netlink: k}
 	var pending []pend
@@ -284,6 +295,12 @@ func propC17(c C17Case) error {
 			if k.Recvs != before {
 				return fmt.Errorf("%s: a NoWait request performed %d receives", what, k.Recvs-before)
 			}
+			if k.Seq == 0 {
+				// the request numbered 0: unsolicited records carry that number too, so none are put in front of its
+				// acknowledgement (nobody could tell them apart)
+				o.Noise = 0
+				hC17.Class("nowait-request-numbered-0")
+			}
 			pending = append(pending, pend{k.Seq, o.Errno, o.Noise, o.Eintr, o.Hard, o.BadType})
 			nowaits++
 			if o.Errno != 0 {
@@ -298,7 +315,12 @@ func propC17(c C17Case) error {
 				continue // a synchronous request would meet the pending ACKs first; the property does not say what happens
 			}
 			k.Queue = nil
-			k.OnSend = func(k *simk.K, s simk.Sent) { pushNoise(o.Noise); k.Push(simk.Ack(s.Seq, o.Errno, s.Type)) }
+			k.OnSend = func(k *simk.K, s simk.Sent) {
+				if s.Seq != 0 { // (unsolicited records carry 0: in front of the reply to request 0 nobody could tell them apart)
+					pushNoise(o.Noise)
+				}
+				k.Push(simk.Ack(s.Seq, o.Errno, s.Type))
+			}
 			var err error
 			if o.K == "setpidwait" {
 				err = cl.SetPID(libaudit.WaitForReply)
@@ -317,7 +339,9 @@ func propC17(c C17Case) error {
 			k.OnSend = func(k *simk.K, s simk.Sent) {
 				k.Push(simk.Ack(s.Seq, 0, s.Type))
 				for _, r := range o.Rules {
-					pushNoise(o.Noise)
+					if s.Seq != 0 {
+						pushNoise(o.Noise)
+					}
 					k.Push(simk.Msg(uint16(uapi.A("AUDIT_LIST_RULES")), syscall.NLM_F_MULTI, s.Seq, 0, r))
 				}
 				k.Push(simk.Msg(syscall.NLMSG_DONE, syscall.NLM_F_MULTI, s.Seq, 0, nil))
